@@ -16,6 +16,20 @@ PROPS = {
                          "Instant::now() replaced by a logical clock argument in the model"],
         "assumptions": ["monotone clock; HashMap/VecDeque behave as an association map / FIFO"],
     },
+    "C12": {
+        "props_module": "Redproxy.Props.C12",
+        "mode": "c12", "model_mode": "codec",
+        "rule": "generated valid messages of every stream codec (SOCKS5 request with/without RFC1929, SOCKS4/4a request, SOCKS4/5 "
+                "reply, client side of the SOCKS5 negotiation, HTTP request/response head, 1-5 RPFM frames) x every segmentation "
+                "for messages <= 11 (quick) / 13 (thorough) bytes, random cut sets (incl. all-single-byte) otherwise x random tail; "
+                "every truncation point; a case is non-trivial if it has >= 2 segments or is a truncation; distinct = distinct case lines",
+        "nontrivial": lambda c, i: ("," in c) or i.startswith("err"),
+        "trusted_base": ["hand-written models Redproxy/Model/{Rd,Socks,Http,Frames,Utf8,Addr}.lean tied to src/common/{socks,http,frames}.rs "
+                         "by the correspondence run over a scripted AsyncRead",
+                         "tokio BufReader/BufWriter: a refill returns one segment; read_until/read_line/read_exact semantics",
+                         "fuel of the header-line loop and of the frame loop exceeds every generated input (documented parameter)"],
+        "assumptions": ["segments are non-empty (a zero-length read is end of stream in tokio)"],
+    },
 }
 
 
@@ -65,7 +79,7 @@ def run_correspondence(pid, cfg, hbin, outdir, args, extra_bins, run, LEAN, log)
                              "case": last, "line": len(cases), "file": prefix + ".cases", "context": context(len(cases) - 1) if cases else []})
     # model
     with open(prefix + ".cases") as fin, open(prefix + ".model", "w") as fout:
-        p = subprocess.run([os.path.join(LEAN, ".lake", "build", "bin", "rpmodel"), cfg["mode"]], stdin=fin, stdout=fout,
+        p = subprocess.run([os.path.join(LEAN, ".lake", "build", "bin", "rpmodel"), cfg.get("model_mode", cfg["mode"])], stdin=fin, stdout=fout,
                            stderr=subprocess.PIPE, text=True)
     if p.returncode != 0:
         problems.append(("model-run", f"rpmodel {cfg['mode']} failed: {p.stderr[-500:]}"))
@@ -88,6 +102,10 @@ def run_correspondence(pid, cfg, hbin, outdir, args, extra_bins, run, LEAN, log)
                 continue
             no = int(parts[0])
             i = no - 1
+            if len(oracle_fails) >= 200:
+                oracle_fails.append({"kind": parts[1], "detail": parts[2], "line": no, "file": prefix + ".cases",
+                                     "case": cases[i][:2000] if 0 <= i < n else "", "context": []})
+                continue
             oracle_fails.append({"kind": parts[1], "detail": parts[2], "line": no, "file": prefix + ".cases",
                                  "case": cases[i][:2000] if 0 <= i < n else "", "impl": impl[i][:500] if 0 <= i < n else "",
                                  "model": model[i][:500] if 0 <= i < len(model) else "", "context": [c[:300] for c in context(i)] if 0 <= i < n else []})
